@@ -90,6 +90,12 @@ def check_commit(db, chk):
     d_err = [(b, t) for b, t in dels if b in r_err]
     okd = len(d_err) == 1 and origin_has_call(c.op_origins(d_err[0][1]["args"][1]), "make_staging_manifest_path")
     chk.ob(R, "conflict=>delete-staging", okd, "on the failure edge the staging object is deleted (%d delete call(s) there)" % len(d_err), body.loc(put[1]["ln"]))
+    # once the store has accepted (version -> staging path) the staging object is the commit record: within commit() it
+    # may only be handed to finalize_manifest, never deleted (whatever finalize returns) -- readers repair from it
+    d_ok = [(b, t) for b, t in dels if b in r_ok]
+    chk.ob(R, "registered=>staging-kept", not d_ok,
+           "no object-store delete is reachable from the success edge of put_if_not_exists in commit() (%s)" % (
+               "none" if not d_ok else "delete at line(s) %s" % [t["ln"] for _, t in d_ok]), body.loc(d_ok[0][1]["ln"] if d_ok else put[1]["ln"]))
     no_ok = not any(i in r_err for (i, j, s) in c.aggregates(adt="Result", variant="Ok") if s["lhs"] == [0])
     chk.ob(R, "conflict=>error", no_ok, "the failure edge never returns Ok", body.loc(put[1]["ln"]))
     o_f = c.op_origins(fin[1]["args"][2])
